@@ -556,7 +556,8 @@ std::vector<uint8_t> encode(const model::MLib& m, const Choices& c, bool* expect
         unsupported = true;
     }
     e.rec_r64(UNITS, {m.precision / m.unit, m.precision}, c.denorm_reals);
-    // min_first: a PATH needs two points before it is a path at all; its first record carries them
+    // min_first: smallest number of points in the first record of a list (a first record with a single point is
+    // legal for a PATH too: the element is complete only at ENDEL)
     auto put_xy = [&](const std::vector<int32_t>& coords, size_t min_first) {
         size_t npts = coords.size() / 2;
         size_t per = c.xy_split > 0 ? (size_t)c.xy_split : 8190;
@@ -643,7 +644,7 @@ std::vector<uint8_t> encode(const model::MLib& m, const Choices& c, bool* expect
                 co.push_back(grid(q.x));
                 co.push_back(grid(q.y));
             }
-            put_xy(co, 2);
+            put_xy(co, 1);
             put_props(p.props);
             e.rec0(ENDEL);
         }
